@@ -280,7 +280,7 @@ CHECKS['C14'] = dict(
 
 CHECKS['C10'] = dict(
     pkg='c10', level='exploration', needs_dirk=True,
-    technique='model-based property testing through the real dirk binary: rapid-generated histories of own signing, interchange-file imports (grammar with repeated keys, mixed newer/older fields, malformed numbers/keys, wrong metadata) and restarts; oracle per-key floor model + monotone export',
+    technique='model-based property testing through the real dirk binary: rapid-generated histories of own signing, interchange-file imports (grammar with repeated keys in the same or a different hex spelling, mixed newer/older fields, malformed numbers/keys, wrong metadata) and restarts; oracle per-key floor model + monotone export',
     level_text=('State machine over one storage directory: own approved history through the real rules service, `dirk --import-slashing-protection` runs of the freshly built binary on '
                 'generated interchange files (1-4 entries over 3 keys so that repeats are common, 0-3 blocks and attestations each with numbers below/equal/above the current floors per field, '
                 'malformed numbers and keys, metadata variants), restarts. After every import that exits 0 on a well-formed file every key is probed through the rules service: a proposal '
